@@ -1,1 +1,194 @@
-/-! Property theorems for C09 (none yet). -/
+import MirVerif.Lemmas.PPExpr
+import MirVerif.Lemmas.PPMacro
+/-!
+# Property C09 — c2mir's preprocessor expands macros and evaluates `#if` as C11 requires
+
+## `#if` evaluation
+Full statement (C11 6.10.1p4):
+
+    theorem eval_meets_c11 : ∀ e, c11Eval e ≠ .undef → c2mEval e = c11Eval e
+
+where `c2mEval = c2mEvalG appliedFixes` is the literal model of `eval`/`eval_binop_operands`
+(`c2mir.c:3436-3577`) of the checked tree.  It is FALSE for the tree as it stands
+(`appliedFixes = noFixes`): six operator/constant classes get the wrong signedness, see the
+counter-examples `eval_wrong_*` below (each is replayed on the real `c2m` and on `gcc` by
+`checks/c09.py`, known findings `C09:if-*`).  What is proved:
+
+* `eval_meets_c11_partial` — for EVERY repair set `fx` and every expression satisfying the explicit
+  side condition `Clean fx e` (no occurrence of an operator class that `fx` leaves unrepaired, every
+  constant has a C11 type) the code model computes the C11 result (value, type, or the division-by-
+  zero diagnostic) wherever C11 defines one;
+* `eval_fixed_meets_c11` — with all candidate repairs `fixes/C09-if-*.patch` the side condition
+  reduces to "every constant has a C11 type": this is the full statement for the repaired code;
+* `eval_meets_c11_of_repaired` — the full statement for the checked tree, conditional on the single
+  definition `appliedFixes` having been switched to `allFixes` (vacuous today, see
+  `appliedFixes_today`).
+
+## macro replacement
+The expander `expandList` is the executable C11 specification (not a model of c2mir's push-back
+engine, which is compared with it on generated inputs only).  Proved about the specification:
+it is total (the definition is accepted by well-founded recursion on
+`(enabledCount defs dis, 2·|ts| + pending)` using `enabledCount_lt`, `collectArgs_len`);
+painted tokens are never replaced (`painted_never_expanded`); a macro name met while the macro is
+being replaced is painted (`disabled_name_painted`); arguments: `arg_preexpanded_once`;
+the code's `stringify`/`destringify` pair is lossless (`stringify_roundtrip`).
+-/
+namespace MirVerif.PP
+
+/-! ### `#if` -/
+
+/-- for every repair set and every expression without an unrepaired operator class -/
+theorem eval_meets_c11_partial (fx : Fixes) (e : Expr)
+    (hclean : Clean fx e = true) (hdef : c11Eval e ≠ .undef) : c2mEvalG fx e = c11Eval e :=
+  eval_partial fx e hclean hdef
+
+/-- the statement for the model of the checked tree -/
+theorem eval_meets_c11_applied (e : Expr)
+    (hclean : Clean appliedFixes e = true) (hdef : c11Eval e ≠ .undef) : c2mEval e = c11Eval e :=
+  eval_partial appliedFixes e hclean hdef
+
+/-- every integer / character constant of the expression has a C11 type -/
+def LitsOk : Expr → Bool
+  | .lit l => c11Lit l != .undef
+  | .un _ a => LitsOk a
+  | .bin _ a b => LitsOk a && LitsOk b
+  | .cond c a b => LitsOk c && LitsOk a && LitsOk b
+
+theorem clean_allFixes (e : Expr) (h : LitsOk e = true) : Clean allFixes e = true := by
+  induction e with
+  | lit l =>
+    simp only [LitsOk] at h
+    cases l with
+    | int b n s => simp [Clean, litClean, allFixes, h]
+    | chr p c => cases p <;> simp [Clean, litClean, allFixes, h]
+  | un op a ih => cases op <;> simp_all [Clean, LitsOk, allFixes]
+  | bin op a b iha ihb =>
+    simp only [LitsOk, Bool.and_eq_true] at h
+    simp only [Clean, iha h.1, ihb h.2]
+    simp [allFixes]
+  | cond c a b ihc iha ihb =>
+    simp only [LitsOk, Bool.and_eq_true] at h
+    simp only [Clean, ihc h.1.1, iha h.1.2, ihb h.2]
+    simp [allFixes]
+
+/-- FULL statement for the code with all candidate repairs applied -/
+theorem eval_fixed_meets_c11 (e : Expr) (hl : LitsOk e = true) (hdef : c11Eval e ≠ .undef) :
+    c2mEvalG allFixes e = c11Eval e :=
+  eval_partial allFixes e (clean_allFixes e hl) hdef
+
+/-- FULL statement for the checked tree once `appliedFixes` is switched to `allFixes` -/
+theorem eval_meets_c11_of_repaired (h : appliedFixes = allFixes) (e : Expr) (hl : LitsOk e = true)
+    (hdef : c11Eval e ≠ .undef) : c2mEval e = c11Eval e := by
+  unfold c2mEval; rw [h]; exact eval_fixed_meets_c11 e hl hdef
+
+/-- today the hypothesis of `eval_meets_c11_of_repaired` does not hold -/
+theorem appliedFixes_today : appliedFixes = noFixes := rfl
+
+/-- type soundness of the C11 evaluator: the flag of a computed value is the static type -/
+theorem c11Eval_type_sound (e : Expr) (v : Val) (h : c11Eval e = .val v) : v.uns = isUns e :=
+  c11Eval_uns e v h
+
+private def iLit (n : Nat) : Expr := .lit (.int .dec n .none)
+private def uLit (n : Nat) : Expr := .lit (.int .dec n .u)
+private def neg1 : Expr := .un .neg (iLit 1)
+
+/-- `-1 < !0u` -/
+def wNot : Expr := .bin .lt neg1 (.un .lnot (uLit 0))
+/-- `(0u == 0u) - 2 < 0` -/
+def wCmp : Expr := .bin .lt (.bin .sub (.bin .eq (uLit 0) (uLit 0)) (iLit 2)) (iLit 0)
+/-- `(-1 >> 1u) < 0` -/
+def wShift : Expr := .bin .lt (.bin .shr neg1 (uLit 1)) (iLit 0)
+/-- `(1 ? -1 : 0u) < 0` -/
+def wCond : Expr := .bin .lt (.cond (iLit 1) neg1 (uLit 0)) (iLit 0)
+/-- `0x80000000 - 0x80000001 < 0` -/
+def wLit : Expr :=
+  .bin .lt (.bin .sub (.lit (.int .hex 0x80000000 .none)) (.lit (.int .hex 0x80000001 .none))) (iLit 0)
+/-- `L'\xffffffff' < 0` -/
+def wWchar : Expr := .bin .lt (.lit (.chr .wide 0xffffffff)) (iLit 0)
+
+theorem eval_wrong_not : c11Eval wNot = .val ⟨false, 1#64⟩ ∧ c2mEvalG noFixes wNot = .val ⟨true, 0#64⟩ := by decide
+theorem eval_wrong_compare : c11Eval wCmp = .val ⟨false, 1#64⟩ ∧ c2mEvalG noFixes wCmp = .val ⟨true, 0#64⟩ := by decide
+theorem eval_wrong_shift : c11Eval wShift = .val ⟨false, 1#64⟩ ∧ c2mEvalG noFixes wShift = .val ⟨true, 0#64⟩ := by decide
+theorem eval_wrong_cond : c11Eval wCond = .val ⟨false, 0#64⟩ ∧ c2mEvalG noFixes wCond = .val ⟨false, 1#64⟩ := by decide
+theorem eval_wrong_literal : c11Eval wLit = .val ⟨false, 1#64⟩ ∧ c2mEvalG noFixes wLit = .val ⟨true, 0#64⟩ := by decide
+theorem eval_wrong_wchar : c11Eval wWchar = .val ⟨false, 1#64⟩ ∧ c2mEvalG noFixes wWchar = .val ⟨true, 0#64⟩ := by decide
+
+/-- the full statement fails for the unrepaired code -/
+theorem eval_meets_c11_false_unrepaired :
+    ¬ ∀ e, LitsOk e = true → c11Eval e ≠ .undef → c2mEvalG noFixes e = c11Eval e := by
+  intro h
+  have := h wCond (by decide) (by decide)
+  revert this
+  decide
+
+/-- each single repair removes its class: the witnesses evaluate correctly -/
+theorem eval_witnesses_repaired :
+    c2mEvalG allFixes wNot = c11Eval wNot ∧ c2mEvalG allFixes wCmp = c11Eval wCmp ∧
+    c2mEvalG allFixes wShift = c11Eval wShift ∧ c2mEvalG allFixes wCond = c11Eval wCond ∧
+    c2mEvalG allFixes wLit = c11Eval wLit ∧ c2mEvalG allFixes wWchar = c11Eval wWchar := by decide
+
+-- non-vacuity: an expression with every operator class that satisfies the hypotheses of
+-- `eval_meets_c11_applied` for the unrepaired code and has a non-trivial value
+example :
+    let e : Expr := .cond (.bin .land (.un .lnot (iLit 0)) (.bin .le (iLit 3) (.bin .shl (iLit 1) (iLit 4))))
+                      (.bin .add (uLit 7) (.bin .mul neg1 (iLit 2))) (uLit 9)
+    Clean appliedFixes e = true ∧ c11Eval e = .val ⟨true, 5#64⟩ ∧ c2mEval e = c11Eval e := by decide
+-- non-vacuity of the diagnostic case: division by zero is reported by both, not in a skipped operand
+example : c11Eval (.bin .div (iLit 1) (iLit 0)) = .divZero ∧ c2mEval (.bin .div (iLit 1) (iLit 0)) = .divZero ∧
+    c11Eval (.bin .land (iLit 0) (.bin .div (iLit 1) (iLit 0))) = .val ⟨false, 0#64⟩ := by decide
+
+/-! ### macro replacement (specification) -/
+
+/-- 6.10.3.4p2: a painted token is copied, whatever the macro table says -/
+theorem painted_never_expanded (defs : Defs) (dis : List String) (t : Tok) (rest : List Tok)
+    (h : t.painted = true) :
+    expandList defs dis none (t :: rest) = (expandList defs dis none rest).cons t :=
+  expand_painted defs dis t rest h
+
+/-- 6.10.3.4p2: the name of a macro that is being replaced is not replaced and becomes painted -/
+theorem disabled_name_painted (defs : Defs) (dis : List String) (t : Tok) (rest : List Tok) (m : Macro)
+    (hi : isIdent t.sp = true) (hp : t.painted = false)
+    (hl : lookup defs t.sp = some m) (hd : dis.contains t.sp = true) :
+    expandList defs dis none (t :: rest) = (expandList defs dis none rest).cons (paint t) :=
+  expand_disabled defs dis t rest m hi hp hl hd
+
+/-- identifiers that are not macro names and non-identifiers pass through -/
+theorem nonmacro_copied (defs : Defs) (dis : List String) (t : Tok) (rest : List Tok)
+    (h : lookup defs t.sp = none) :
+    expandList defs dis none (t :: rest) = (expandList defs dis none rest).cons t :=
+  expand_nonmacro defs dis t rest h
+
+-- non-vacuity of the two theorems above
+example : let t : Tok := { sp := "F" }
+    let m : Macro := ⟨"F", some ["a"], false, [.param 0 .none]⟩
+    isIdent t.sp = true ∧ t.painted = false ∧ lookup [m] t.sp = some m ∧ ["G", "F"].contains t.sp = true := by
+  decide
+
+/-- 6.10.3.1: in the replacement list a parameter that is not an operand of `#`/`##` is replaced by
+the argument's *completely macro-replaced* tokens (`exp`, computed once per invocation by
+`expandList … none arg` before the macro is disabled), an operand of `#` by the spelling of the
+argument as written, an operand of `##` by the argument as written. -/
+theorem arg_preexpanded_once (raw exp : List (List Tok)) (i : Nat) (w : Ws) :
+    substItems raw exp false [.param i w] = insertArg w (exp.getD i []) ∧
+    substItems raw exp false [.str i w] = [.tok (stringifyArg w (raw.getD i []))] ∧
+    substItems raw exp false [.param i w, .paste, .tok ⟨"x", .none, false⟩] =
+      (if (raw.getD i []).isEmpty then [PItem.placemarker w] else insertArg w (raw.getD i [])) ++
+        [.pasteOp, .tok ⟨"x", .none, false⟩] := by
+  refine ⟨?_, ?_, ?_⟩
+  · simp [substItems, afterArg]
+  · simp [substItems]
+  · simp [substItems]
+
+/-- the code's `stringify` (`c2mir.c:1778`) followed by `destringify` (`c2mir.c:1789`) is the identity -/
+theorem stringify_roundtrip (s : List Char) : destringify (stringify s) = s :=
+  stringify_roundtrip' s
+
+example : stringify "a\"b\\c".toList = "\"a\\\"b\\\\c\"".toList := by decide
+
+/-- termination measure facts used by the definition of `expandList` -/
+theorem expand_terminates_measure {defs : Defs} {dis : List String} {n : String} {m : Macro}
+    (h : lookup defs n = some m) (hd : dis.contains n = false) :
+    enabledCount defs (n :: dis) < enabledCount defs dis :=
+  enabledCount_lt h hd
+
+end MirVerif.PP
